@@ -997,6 +997,8 @@ int KSI_SignatureBuilder_openFromAggregationResp(const KSI_AggregationResp *resp
 				/* Copy this tag to the signature. */
 				res = KSI_TLV_appendNestedTlv(tmpTlv, t);
 				if (res != KSI_OK) {
+					/* The element has been taken out of the list and has no owner yet. */
+					KSI_TLV_free(t);
 					KSI_pushError(ctx, res, NULL);
 					goto cleanup;
 				}
